@@ -294,7 +294,7 @@ impl Property for C13 {
     }
     fn budget(&self, tier: Tier) -> Budget {
         match tier {
-            Tier::Quick => Budget { cases: 12_000, shards: 16, min_len: 8, max_len: 64 },
+            Tier::Quick => Budget { cases: 24_000, shards: 16, min_len: 8, max_len: 64 },
             Tier::Thorough => Budget { cases: 400_000, shards: 16, min_len: 8, max_len: 64 },
         }
     }
